@@ -1553,8 +1553,8 @@ def calibrate_double_ended_solver(  # noqa: MC0001
                     np.arange(1 + 2 * nt),
                     1 + 2 * nt + ix_from_cal_match_to_glob,
                     np.arange(
-                        1 + 2 * nt + ix_from_cal_match_to_glob.size,
-                        1 + 2 * nt + ix_from_cal_match_to_glob.size + nta * nt * 2,
+                        1 + 2 * nt + ds.x.size,
+                        1 + 2 * nt + ds.x.size + nta * nt * 2,
                     ),
                 )
             )
@@ -1563,7 +1563,10 @@ def calibrate_double_ended_solver(  # noqa: MC0001
                 (
                     np.arange(1 + 2 * nt),
                     1 + 2 * nt + ix_sec[1:],
-                    np.arange(1 + 2 * nt + nx_sec, 1 + 2 * nt + nx_sec + nta * nt * 2),
+                    np.arange(
+                        1 + 2 * nt + ds.x.size,
+                        1 + 2 * nt + ds.x.size + nta * nt * 2,
+                    ),
                 )
             )
 
